@@ -104,6 +104,17 @@ pub fn run_case(case: &Case, props: &[&str], with_counts: bool) -> CaseResult {
         Outcome::Err(k, m) => (format!("err:{k}"), m, vec![], None),
         Outcome::Panic(m) => ("panic".to_string(), m, vec![], None),
     };
+    // C14: the same case delivered the other way must give the same bytes
+    let twin_equal = if props.contains(&"C14") {
+        let mut twin = case.clone();
+        twin.delivery = if case.delivery == Delivery::Ints { Delivery::Bytes } else { Delivery::Ints };
+        match enc::encode(&twin.cfg, twin.source(), &twin.mode) {
+            Outcome::Ok(s) => enc::stream_bytes(&s).map_or(false, |b| b == bytes && outcome == "ok"),
+            _ => false,
+        }
+    } else {
+        true
+    };
     let g = &case.g;
     // A stream far larger than the raw PCM (the estimate-based candidate selection can emit
     // frames of tens of megabytes) is reported by size only: C09 judges it, the other
@@ -123,7 +134,8 @@ pub fn run_case(case: &Case, props: &[&str], with_counts: bool) -> CaseResult {
         "family": case.family, "relation": case.relation,
         "cfg": serde_json::to_string(&case.cfg).unwrap(),
         "outcome": outcome, "detail": detail,
-        "nbytes": nbytes_real, "rawbytes": raw, "bytes": bytes,
+        "nbytes": nbytes_real, "rawbytes": raw, "bytes": bytes, "twin_equal": twin_equal,
+        "delivery": format!("{:?}", case.delivery),
         "count": stream.as_ref().map_or(-1i64, |s| if with_counts { s.count_bits() as i64 } else { -1 }),
     })];
     let nblk = if g.n == 0 { 0 } else { (g.n + g.bs - 1) / g.bs };
